@@ -43,6 +43,7 @@ func Exec(c *core.Ctx, cs *core.Case) {
 		panic("no evaluator for family " + cs.Fam)
 	}
 	c.Begin(cs)
+	c.ExecCount++
 	c.R.Evaluations++
 	// evaluators guard the encoder calls themselves; a panic that escapes them comes from an
 	// accessor of a returned barcode (At, Bounds, Content, ...) while it is being examined
@@ -51,12 +52,16 @@ func Exec(c *core.Ctx, cs *core.Case) {
 	}
 	c.End()
 	c.Remember(cs)
+	c.Tick()
 }
 
 // Safely runs f and converts a panic into (true, description).
 func Safely(f func()) (panicked bool, what string) {
 	defer func() {
 		if r := recover(); r != nil {
+			if _, stop := r.(core.StopSignal); stop {
+				panic(r)
+			}
 			panicked = true
 			what = fmt.Sprintf("%v\n%s", r, trimStack(debug.Stack()))
 		}
